@@ -64,7 +64,8 @@ def check(world) -> Dict[str, Any]:
     execs = 0
     multi = False
     outcome = []
-    for ctx, g in cpworlds.graphs_for(world, ta, rank=rank):
+    # all analyses of the world first, then every graph is examined: a graph must not change because later analyses ran
+    for ctx, g in list(cpworlds.graphs_for(world, ta, rank=rank)):
         execs += 1
         ts = [int(n.ts) for n in g.node_list]
         total = path_checks(g, "analysis", viol, ctx, makespan=max(ts) - min(ts))
